@@ -45,7 +45,13 @@ func (c *Codec) decodeRoot(jsonData []byte, root j5reflect.Root) error {
 type decoder struct {
 	jd    *json.Decoder
 	codec *Codec
+	depth int
 }
+
+// maxNestingDepth bounds the nesting of property values, like encoding/json
+// does for Unmarshal; the Token API used here has no limit of its own, so a
+// deeply nested document on a recursive type would exhaust the stack.
+const maxNestingDepth = 10000
 
 func (d *decoder) Token() (json.Token, error) {
 	return d.jd.Token()
@@ -155,6 +161,12 @@ func passUpError(field string, err error) error {
 }
 
 func (dec *decoder) decodeValue(prop j5reflect.Property) error {
+	dec.depth++
+	defer func() { dec.depth-- }()
+	if dec.depth > maxNestingDepth {
+		return errors.New("exceeded max depth")
+	}
+
 	switch prop.PropertyType() {
 	case j5reflect.MapProperty:
 		return dec.decodeMapProperty(prop)
